@@ -187,7 +187,7 @@ def static_cases(ctx):
 
 
 def run(ctx):
-    sched_suite.run_suite(ctx, PROF, ctx.scale(300, 15000), "c07", [order_oracle], coincide, signature_of)
+    sched_suite.run_suite(ctx, PROF, ctx.scale(1000, 80000), "c07", [order_oracle], coincide, signature_of)
     for i in range(ctx.scale(100, 4000)):
         merge_case(ctx, i)
     static_cases(ctx)
